@@ -298,7 +298,9 @@ class EncodeRows(Filter[Iterable[Union[Dense,Sparse]],Iterable[Union[Dense,Spars
         if isinstance(first,Dense):
             if isinstance(enc,abc.Mapping):
                 if hasattr(first, 'headers'):
-                    enc = [ enc.get(h, enc.get(i, lambda x:x)) for i,h in enumerate(first.headers) ]
+                    hdr = first.headers
+                    hdr = { i:h for h,i in hdr.items() } if isinstance(hdr,abc.Mapping) else dict(enumerate(hdr))
+                    enc = [ enc.get(hdr.get(i,i), enc.get(i, lambda x:x)) for i in range(len(first)) ]
                 else:
                     enc = [ enc.get(i, lambda x:x)             for i   in range(len(first))        ]
             return ( EncodeDense(row, enc) for row in rows )
@@ -397,8 +399,9 @@ class DropRows(Filter[Iterable[Union[Dense,Sparse]], Iterable[Union[Dense,Sparse
     def make_drop_row_args(first, drop_cols) -> Tuple:
         if isinstance(first,Dense):
             try:
-                selects = [ not any(i in drop_cols for i in I) for I in enumerate(first.headers) ]
                 headers = first.headers.items()
+                named   = { i for h,i in headers if h in drop_cols }
+                selects = [ i not in drop_cols and i not in named for i in range(len(first)) ]
                 indexes = list(compress(range(len(first)), selects))
             except:
                 selects = [ i not in drop_cols for i in range(len(first)) ]
